@@ -6,3 +6,4 @@ export GOFLAGS=-mod=mod GOPROXY=off GOSUMDB=off GOTOOLCHAIN=local
 ./mkmod.sh
 mkdir -p bin
 go build -o bin/vharness ./cmd/vharness
+go build -o bin/vpure ./cmd/vpure
